@@ -1,16 +1,119 @@
 package main
 
 import (
+	"errors"
 	"io/ioutil"
 	"log"
 	"sort"
+	"strconv"
 
 	"github.com/evolbioinfo/gotree/tree"
 )
 
 func init() { register("C05", c05) }
 
+// outgroupMulti applies ONE outgroup slice to several trees in a loop, as cmd/reroot does over a
+// multi-tree file: RerootOutGroup(remove, strict, names...) with the same slice every time.
+//
+//	case: ((op outgroup_multi) (trees (T ...)) (names (...)) (remove b) (strict b))
+//	obs : ((results (OBS ...)) (names_after (...)))   OBS as for op outgroup
+func outgroupMulti(c *Sexp) *Sexp {
+	log.SetOutput(ioutil.Discard)
+	names := c.StrList("names")
+	res := L()
+	for _, ts := range c.Get("trees").List {
+		t, err := BuildTree(ts)
+		if err != nil {
+			return L(KV("panic", A("build: "+err.Error())))
+		}
+		if err := t.ReinitIndexes(); err != nil {
+			return L(KV("panic", A("reinit: "+err.Error())))
+		}
+		operr := t.RerootOutGroup(c.Bool("remove"), c.Bool("strict"), names...)
+		if operr != nil {
+			res.List = append(res.List, L(KV("err", A(errStr(operr)))))
+			continue
+		}
+		d, audit := ObserveTree(t)
+		o := L(KV("err", A("")), KV("tree", d), KV("audit", audit))
+		o.List = append(o.List, indexState(t)...)
+		res.List = append(res.List, o)
+	}
+	return L(KV("results", res), KV("names_after", Strs(names)))
+}
+
+// preEdit leaves the tip-name index STALE before the operation, through public functions only:
+//
+//	(pre (rename "old" "new"))  the case tree carries "new"; the tip is renamed to "old", the tree
+//	                            indexed, and the tip renamed back to "new" with Node.SetName
+//	(pre (graft i "name"))      a new tip "name" is grafted on branch i of Edges() (GraftTipOnEdge)
+//	                            after indexing; the tree at that point is reported as (mid T)
+func preEdit(t *tree.Tree, pre *Sexp, obs *Sexp) error {
+	if pre == nil || !pre.IsList || len(pre.List) != 3 {
+		return t.ReinitIndexes()
+	}
+	switch pre.List[0].Atom {
+	case "rename":
+		old, nw := pre.List[1].Atom, pre.List[2].Atom
+		var tip *tree.Node
+		for _, x := range t.Tips() {
+			if x.Name() == nw {
+				tip = x
+			}
+		}
+		if tip == nil {
+			return errors.New("no such tip")
+		}
+		tip.SetName(old)
+		if err := t.ReinitIndexes(); err != nil {
+			return err
+		}
+		tip.SetName(nw)
+	case "graft":
+		if err := t.ReinitIndexes(); err != nil {
+			return err
+		}
+		i, _ := strconv.Atoi(pre.List[1].Atom)
+		edges := t.Edges()
+		if i >= len(edges) {
+			return errors.New("no such branch")
+		}
+		n := t.NewNode()
+		n.SetName(pre.List[2].Atom)
+		if _, _, _, err := t.GraftTipOnEdge(n, edges[i]); err != nil {
+			return err
+		}
+		d, audit := ObserveTree(t)
+		obs.List = append(obs.List, KV("mid", d), KV("midaudit", audit))
+	default:
+		return t.ReinitIndexes()
+	}
+	return nil
+}
+
 func c05(c *Sexp) *Sexp {
+	if c.Str("op") == "outgroup_multi" {
+		return outgroupMulti(c)
+	}
+	if c.Str("op") == "outgroup" && c.Get("pre") != nil {
+		log.SetOutput(ioutil.Discard)
+		t, err := BuildTree(c.Get("tree"))
+		if err != nil {
+			return L(KV("panic", A("build: "+err.Error())))
+		}
+		obs := L()
+		if err := preEdit(t, c.Get("pre"), obs); err != nil {
+			return L(KV("panic", A("reinit: "+err.Error())))
+		}
+		operr := t.RerootOutGroup(c.Bool("remove"), c.Bool("strict"), c.StrList("names")...)
+		if operr != nil {
+			obs.List = append(obs.List, KV("err", A(errStr(operr))))
+			return obs
+		}
+		d, audit := ObserveTree(t)
+		obs.List = append(obs.List, KV("err", A("")), KV("tree", d), KV("audit", audit))
+		return obs
+	}
 	t, err := BuildTree(c.Get("tree"))
 	if err != nil {
 		return L(KV("panic", A("build: "+err.Error())))
